@@ -157,7 +157,7 @@ returns (`cEnd`). The coarse reading "snapshot the keys, then bulk delete" is th
 which all visits, resp. all deletes, happen back to back (`snapLabels`, `bulkLabels`).
 
 Ghost state (no transition's enabledness or effect on `m`/`now` depends on it):
-`stamp` — every successful `Set` tags its entry with the index of that step; `ref` — the map as
+`stamp` — every successful `Set` tags its entry with a fresh number (the count of Sets so far); `ref` — the map as
 the callers' history defines it (Set puts, Delete removes, a Reset removing the very entry it
 visited removes); `raced` — entries removed by a cleaner although they were written after the
 cleaner had visited the key (the documented cleanup/refresh race). -/
@@ -246,41 +246,37 @@ def cstep (s : CState) : Label → Option CState
       if ttl ≤ 0 then none else
       let e : SEntry := ({ val := v, exp := s.now + durNs s.maxTTL ttl }, s.stamp)
       some { s with m := mput s.m k e, ref := mput s.ref k e, stamp := s.stamp + 1 }
-  | .get k r => if getOfC s k = r then some { s with stamp := s.stamp + 1 } else none
+  | .get k r => if getOfC s k = r then some s else none
   | .delete k =>
-      some { s with m := mdelKeys s.m [k], ref := mdelKeys s.ref [k], stamp := s.stamp + 1 }
+      some { s with m := mdelKeys s.m [k], ref := mdelKeys s.ref [k] }
   | .advance d =>
       let now' := s.now + d
       if !s.tickerStopped && decide (s.nextTick ≤ now') && decide (0 < s.period) then
         some { s with now := now', tickPending := true,
-                      nextTick := nextTickAfter s.nextTick s.period now', stamp := s.stamp + 1 }
-      else some { s with now := now', stamp := s.stamp + 1 }
+                      nextTick := nextTickAfter s.nextTick s.period now' }
+      else some { s with now := now' }
   | .cBegin id r =>
       if id = 0 ∨ (findCl s.cls id).isSome then none else
-      some { s with cls := { id := id, isReset := r, phase := .started, now0 := 0, keys := [] } :: s.cls,
-                    stamp := s.stamp + 1 }
+      some { s with cls := { id := id, isReset := r, phase := .started, now0 := 0, keys := [] } :: s.cls }
   | .cNow id =>
       match findCl s.cls id with
       | some c =>
           if c.phase = .started then
-            some { s with cls := updCl s.cls id (fun c => { c with phase := .scanning, now0 := s.now }),
-                          stamp := s.stamp + 1 }
+            some { s with cls := updCl s.cls id (fun c => if c.phase = .started then { c with phase := .scanning, now0 := s.now } else c) }
           else none
       | none => none
   | .cVisit id k =>
       match findCl s.cls id with
       | some c =>
           if c.phase = .scanning then
-            some { s with cls := updCl s.cls id (fun c => if c.phase = .scanning then visit s.m c k else c),
-                          stamp := s.stamp + 1 }
+            some { s with cls := updCl s.cls id (fun c => if c.phase = .scanning then visit s.m c k else c) }
           else none
       | none => none
   | .cSeal id =>
       match findCl s.cls id with
       | some c =>
           if c.phase = .scanning then
-            some { s with cls := updCl s.cls id (fun c => if c.phase = .scanning then { c with phase := .deleting } else c),
-                          stamp := s.stamp + 1 }
+            some { s with cls := updCl s.cls id (fun c => if c.phase = .scanning then { c with phase := .deleting } else c) }
           else none
       | none => none
   | .cDelOne id k st =>
@@ -289,13 +285,13 @@ def cstep (s : CState) : Label → Option CState
           if c.phase = .deleting ∧ (k, st) ∈ c.keys then
             let cls' := updCl s.cls id (fun c => { c with keys := c.keys.filter (fun p => p != (k, st)) })
             match mget s.m k with
-            | none => some { s with cls := cls', stamp := s.stamp + 1 }
+            | none => some { s with cls := cls' }
             | some (_, st') =>
                 if st' = st then
-                  some { s with m := mdelKeys s.m [k], cls := cls', stamp := s.stamp + 1,
+                  some { s with m := mdelKeys s.m [k], cls := cls',
                                 ref := if c.isReset then mdelKeys s.ref [k] else s.ref }
                 else
-                  some { s with m := mdelKeys s.m [k], cls := cls', stamp := s.stamp + 1,
+                  some { s with m := mdelKeys s.m [k], cls := cls',
                                 raced := (k, st') :: s.raced }
           else none
       | none => none
@@ -303,22 +299,22 @@ def cstep (s : CState) : Label → Option CState
       match findCl s.cls id with
       | some c =>
           if c.phase = .deleting ∧ c.keys = [] then
-            some { s with cls := s.cls.filter (fun c => c.id != id), stamp := s.stamp + 1,
+            some { s with cls := s.cls.filter (fun c => c.id != id),
                           bg := if id = 0 then .idle else s.bg }
           else none
       | none => none
   | .bgTake =>
       if s.bg = .idle ∧ s.tickPending = true ∧ (findCl s.cls 0).isNone then
-        some { s with tickPending := false, bg := .cleaning, stamp := s.stamp + 1,
+        some { s with tickPending := false, bg := .cleaning,
                       cls := { id := 0, isReset := false, phase := .started, now0 := 0, keys := [] } :: s.cls }
       else none
   | .bgExit =>
       if s.bg = .idle ∧ s.stopClosed = true then
-        some { s with bg := .exited, tickerStopped := true, runningClosed := true, stamp := s.stamp + 1 }
+        some { s with bg := .exited, tickerStopped := true, runningClosed := true }
       else none
-  | .stopCall => some { s with stopClosed := true, stamp := s.stamp + 1 }
+  | .stopCall => some { s with stopClosed := true }
   | .stopReturn =>
-      if s.stopClosed = true ∧ s.runningClosed = true then some { s with stamp := s.stamp + 1 } else none
+      if s.stopClosed = true ∧ s.runningClosed = true then some s else none
 
 /-- Run a list of labels; `none` as soon as one is not enabled. -/
 def crun (s : CState) : List Label → Option CState
